@@ -2,6 +2,7 @@ import IstioModel.C04.Driver
 import IstioModel.C04.Process
 import IstioModel.C04.Recv
 import IstioModel.C04.DeltaProtocol
+import IstioModel.C04.Types
 
 /-!
 Line-protocol driver for the streams added in review round 2 (`proc`, `dproc`, ...); every other
@@ -27,6 +28,8 @@ structure PState where
   srv       : C03.Srv := {}
   scripts   : List (Ty × Script) := []
   delivered : Delivered := []
+  tty       : Option Ty := none -- stream tproc: the modelled type the type URL of the case is handled as (printed as `T`)
+  tdebug    : Bool := false     -- stream tproc: the type URL of the case is a debug type
   grpc      : Bool := false     -- the proxy of the case is a proxyless gRPC client
   needs     : Bool := true      -- what ProxyNeedsPush answers for pushes
   dsys      : DSys := DSys.init
@@ -218,6 +221,39 @@ def stepDloop (p : PState) (toks : List String) : PState × String :=
   | ["spush", n, ok, gen] => go (.serverPush (dec n) (tokBool ok) (decList gen))
   | _ => (p, "bad-op")
 
+/-! ### stream tproc: every type-URL constant of the tree through the handlers
+
+The type URL of the case is handled as the modelled type with the same URL, a debug type as a debug request, and
+EVERY other URL as NDS - the claim of `GenTie.other_rows_like_nds`, here put to the test on the real handlers. -/
+
+def tyOfUrl (u : String) : Ty :=
+  match Ty.all.find? (fun t => t.url == u) with
+  | some t => t
+  | none => .nds
+
+def retag (t : Ty) (s : String) : String :=
+  (s.replace (t.tok ++ ":") "T:").replace (t.tok ++ "[") "T["
+
+def stepTproc (p : PState) (t : Ty) (toks : List String) : PState × String :=
+  let toks := toks.map (fun x => if x == "T" then t.tok else x)
+  if p.tdebug then
+    -- a debug request: the generator is handed the request's names, its answer is sent, nothing is recorded
+    let answer (names : String) : PState × String :=
+      let ns := decList names
+      let call := showCallsI [(t, ns)] [infoPush true]
+      let r := procDebug false false p.srv
+      let sent := if r.1 then showPWires [{ ty := t, resources := echoRes ns, removed := [] }] else "-"
+      (p, retag t s!"sent={sent} calls={call} err={boolTok r.2} | empty")
+    match toks with
+    | ["req", _, names, _, _] => answer names
+    | ["dreq", _, sub, _, _, _, _] => answer sub
+    | ["fail", v] => ({ p with srv := { p.srv with fail := tokBool v } }, "ok")
+    | [_] => (p, "sent=- calls=- err=0 | empty")
+    | _ => (p, "bad-op")
+  else
+    let (p', o) := stepProc p toks
+    (p', retag t o)
+
 def stepP (p : PState) (toks : List String) : PState × String :=
   match toks with
   | ["case", _, "proc"] => ({ base := p.base, stream := "proc" }, "ok")
@@ -225,6 +261,9 @@ def stepP (p : PState) (toks : List String) : PState × String :=
   | ["case", _, "dproc"] => ({ base := p.base, stream := "dproc" }, "ok")
   | ["case", _, "dproc", "grpc"] => ({ base := p.base, stream := "dproc" }, "ok")   -- the delta path does not read IsProxylessGrpc
   | ["case", _, "recv"] => ({ base := p.base, stream := "recv" }, "ok")
+  | ["case", _, "tproc", _, _, url] =>
+    let u := dec url
+    ({ base := p.base, stream := "tproc", tty := some (tyOfUrl u), tdebug := urlDebug u }, "ok")
   | ["case", _, "dloop", ty] =>
     match Ty.ofTok ty with
     | none => (p, "bad-op")
@@ -234,6 +273,7 @@ def stepP (p : PState) (toks : List String) : PState × String :=
     ({ base := b, stream := "" }, o)
   | _ =>
     if p.stream == "proc" || p.stream == "dproc" then stepProc p toks
+    else if p.stream == "tproc" then stepTproc p (p.tty.getD .nds) toks
     else if p.stream == "recv" then (p, stepRecv toks)
     else if p.stream == "dloop" then stepDloop p toks
     else
